@@ -60,10 +60,10 @@ def numbering(ctx, py: PyRepo, fn: ast.FunctionDef, ci):
     ctx.require(len(loops) >= 1, '_import_proof: cannot find the loop that numbers the mandatory hypotheses')
     for loop, st in loops:
         where = py.where('metamath.converter.converter', loop)
-        el = oa.set_elem(loop.iter, env, ci)
-        if el is not None:
+        src = order_from_set(fn, oa, env, ci, loop.iter)
+        if src is not None:
             ctx.ob('hypothesis-order', 'numbering-loop', False,
-                   f'the mandatory hypotheses are numbered by iterating `{ast.unparse(loop.iter)}`, a set of {el}: with two or more '
+                   f'the mandatory hypotheses are numbered in the iteration order of `{src[0]}`, a set of {src[1]}: with two or more '
                    f'variables the numbering depends on the hash seed instead of the database order', where)
         else:
             ok, why = database_ordered(fn, loop.iter)
@@ -79,6 +79,155 @@ def numbering(ctx, py: PyRepo, fn: ast.FunctionDef, ci):
             ok_idx = len(inits) == 1 and isinstance(inits[0].value, ast.Constant) and inits[0].value.value == 1 and len(incs) == 1 \
                 and isinstance(incs[0].op, ast.Add) and isinstance(incs[0].value, ast.Constant) and incs[0].value.value == 1
         ctx.ob('hypothesis-order', 'numbering-from-1', ok_idx, 'hypothesis numbers must be 1, 2, 3, ... in loop order', where)
+
+
+def order_from_set(fn, oa, env, ci, e, depth=0):
+    """the order of the sequence `e` derives from iterating a set (through a comprehension, list()/tuple(), or a local name)"""
+    if depth > 4:
+        return None
+    el = oa.set_elem(e, env, ci)
+    if el is not None:
+        return ast.unparse(e), el
+    if isinstance(e, (ast.ListComp, ast.GeneratorExp)) and e.generators:
+        return order_from_set(fn, oa, env, ci, e.generators[0].iter, depth + 1)
+    if isinstance(e, ast.Call) and isinstance(e.func, ast.Name) and e.func.id in ('list', 'tuple') and e.args:
+        return order_from_set(fn, oa, env, ci, e.args[0], depth + 1)
+    if isinstance(e, ast.BinOp) and isinstance(e.op, ast.Add):
+        return order_from_set(fn, oa, env, ci, e.left, depth + 1)
+    if isinstance(e, ast.Name):
+        defs = [n.value for n in ast.walk(fn) if isinstance(n, ast.Assign) and isinstance(n.targets[0], ast.Name) and n.targets[0].id == e.id]
+        if defs:
+            return order_from_set(fn, oa, env, ci, defs[0], depth + 1)
+    return None
+
+
+def digit_order(ctx, py: PyRepo, fn: ast.FunctionDef):
+    """positional weights of the decoder: the LAST letter of a word is the least-significant (A..T) digit, and the preceding U..Y
+    letters are base-5 digits whose weight grows from right to left (exponent 0 next to the last letter).  Decided from the
+    direction in which the high digits are traversed and the direction in which the exponent counts."""
+    conv = [n for n in ast.walk(fn) if isinstance(n, ast.FunctionDef) and n.name == 'convert_to_number']
+    ctx.require(len(conv) == 1, 'anchor vanished: convert_to_number')
+    cf = conv[0]
+    where = py.where('metamath.converter.converter', cf)
+    word = cf.args.args[0].arg
+
+    use_line = [10 ** 9]
+
+    def direction(e, depth=0):
+        """-> ('fwd'|'rev', drops_last: bool) for a sequence over the letters of `word`, or None"""
+        if depth > 6:
+            return None
+        if isinstance(e, ast.Name) and e.id == word:
+            return ('fwd', False)
+        if isinstance(e, ast.Call) and isinstance(e.func, ast.Name) and e.func.id in ('list', 'tuple', 'iter') and e.args:
+            return direction(e.args[0], depth + 1)
+        if isinstance(e, ast.Call) and isinstance(e.func, ast.Name) and e.func.id == 'reversed' and e.args:
+            d = direction(e.args[0], depth + 1)
+            return None if d is None else ('rev' if d[0] == 'fwd' else 'fwd', d[1])
+        if isinstance(e, ast.Subscript) and isinstance(e.slice, ast.Slice):
+            d = direction(e.value, depth + 1)
+            if d is None:
+                return None
+            sl = ast.unparse(e.slice)
+            if sl in (':-1',) and d[0] == 'fwd':
+                return ('fwd', True)
+            if sl in ('1:',) and d[0] == 'rev':
+                return ('rev', True)
+            if sl in ('-2::-1',) and d[0] == 'fwd':
+                return ('rev', True)
+            if sl in ('::-1',):
+                return ('rev' if d[0] == 'fwd' else 'fwd', d[1])
+            return None
+        if isinstance(e, ast.Name):
+            # unpacking definitions:  a, *rest = seq   |   *rest, a = seq   |   plain assignment; the latest definition wins
+            cands = sorted((n for n in ast.walk(cf) if isinstance(n, ast.Assign) and n.lineno < use_line[0]), key=lambda n: -n.lineno)
+            for n in cands:
+                if isinstance(n, ast.Assign) and isinstance(n.targets[0], ast.Tuple):
+                    elts = n.targets[0].elts
+                    for i, t in enumerate(elts):
+                        if isinstance(t, ast.Starred) and isinstance(t.value, ast.Name) and t.value.id == e.id and len(elts) == 2:
+                            saved = use_line[0]
+                            use_line[0] = n.lineno          # the right-hand side sees only earlier bindings
+                            d = direction(n.value, depth + 1)
+                            use_line[0] = saved
+                            if d is None or d[1]:
+                                return None
+                            # star first  (*rest, x): drops the last element of src ; star second (x, *rest): drops the first
+                            if i == 0:
+                                return (d[0], True) if d[0] == 'fwd' else None
+                            return (d[0], True) if d[0] == 'rev' else None
+                if isinstance(n, ast.Assign) and isinstance(n.targets[0], ast.Name) and n.targets[0].id == e.id:
+                    saved = use_line[0]
+                    use_line[0] = n.lineno
+                    d = direction(n.value, depth + 1)
+                    use_line[0] = saved
+                    return d
+        return None
+
+    def single_letter(name):
+        """which letter of the word a scalar name holds: 'last' | 'first' | None"""
+        for n in ast.walk(cf):
+            if isinstance(n, ast.Assign) and isinstance(n.targets[0], ast.Tuple) and len(n.targets[0].elts) == 2:
+                a, b = n.targets[0].elts
+                saved = use_line[0]
+                use_line[0] = n.lineno
+                d = direction(n.value)
+                use_line[0] = saved
+                if d is None or d[1]:
+                    continue
+                if isinstance(a, ast.Name) and a.id == name and isinstance(b, ast.Starred):      # x, *rest = seq
+                    return 'first' if d[0] == 'fwd' else 'last'
+                if isinstance(b, ast.Name) and b.id == name and isinstance(a, ast.Starred):      # *rest, x = seq
+                    return 'last' if d[0] == 'fwd' else 'first'
+            if isinstance(n, ast.Assign) and isinstance(n.targets[0], ast.Name) and n.targets[0].id == name \
+                    and isinstance(n.value, ast.Subscript) and ast.unparse(n.value.value) == word:
+                idx = ast.unparse(n.value.slice)
+                return {'-1': 'last', '0': 'first'}.get(idx)
+        return None
+
+    # least-significant digit: lsdigit[<last letter>]
+    ls_uses = [n for n in ast.walk(cf) if isinstance(n, ast.Subscript) and isinstance(n.value, ast.Name) and n.value.id == 'lsdigit']
+    ok_ls = False
+    if len(ls_uses) == 1:
+        sl = ls_uses[0].slice
+        if isinstance(sl, ast.Name):
+            ok_ls = single_letter(sl.id) == 'last'
+        elif isinstance(sl, ast.Subscript) and ast.unparse(sl.value) == word:
+            ok_ls = ast.unparse(sl.slice) == '-1'
+    ctx.ob('digit-order', 'least-significant-is-last-letter', ok_ls,
+           'the A..T digit must be taken from the LAST letter of the word', where)
+    # high digits: traversal direction vs exponent direction
+    loops = [n for n in ast.walk(cf) if isinstance(n, ast.For)]
+    ctx.require(len(loops) == 1, 'convert_to_number: expected one loop over the high digits')
+    lp = loops[0]
+    it = lp.iter
+    exp_dir = None
+    seq = it
+    if isinstance(it, ast.Call) and isinstance(it.func, ast.Name) and it.func.id == 'enumerate' and it.args:
+        seq = it.args[0]
+        exp_dir = 'asc'
+    else:
+        incs = [n for n in ast.walk(lp) if isinstance(n, ast.AugAssign) and isinstance(n.op, ast.Add)
+                and isinstance(n.value, ast.Constant) and n.value.value == 1 and isinstance(n.target, ast.Name)]
+        for inc in incs:
+            inits = [n for n in ast.walk(cf) if isinstance(n, ast.Assign) and isinstance(n.targets[0], ast.Name)
+                     and n.targets[0].id == inc.target.id and isinstance(n.value, ast.Constant) and n.value.value == 0]
+            used = any(isinstance(n, ast.Call) and ast.unparse(n.func) == 'pow' and len(n.args) == 2 and ast.unparse(n.args[1]) == inc.target.id
+                       for n in ast.walk(lp)) or any(isinstance(n, ast.BinOp) and isinstance(n.op, ast.Pow) and ast.unparse(n.right) == inc.target.id
+                                                      for n in ast.walk(lp))
+            if inits and used:
+                exp_dir = 'asc'
+    use_line[0] = lp.lineno
+    d = direction(seq)
+    use_line[0] = 10 ** 9
+    if d is None or exp_dir is None:
+        from ..core.report import AnalysisError as _AE
+        raise _AE(f'convert_to_number: cannot determine the traversal direction of `{ast.unparse(seq)}` or of the exponent')
+    ok = d[0] == 'rev' and d[1] and exp_dir == 'asc'
+    ctx.ob('digit-order', 'high-digits-weighted-right-to-left', ok,
+           f'the U..Y digits are traversed {"left-to-right" if d[0] == "fwd" else "right-to-left"} while the exponent counts up from 0: '
+           f'the digit next to the last letter must get weight 20*5^0 (e.g. UVA = 141 would decode as 221)', where,
+           facts={'traversal': d, 'exponent': exp_dir})
 
 
 def database_ordered(fn: ast.FunctionDef, it):
@@ -122,6 +271,7 @@ def run(ctx):
     fn = ci.methods.get('_import_proof')
     ctx.require(fn is not None, 'anchor vanished: MetamathConverter._import_proof')
     digit_tables(ctx, py, fn)
+    digit_order(ctx, py, fn)
     numbering(ctx, py, fn, ci)
     # the ordered source really is an insertion-ordered list appended while the database is read in order
     init = ci.methods.get('__init__')
@@ -131,6 +281,7 @@ def run(ctx):
            f'self.{ORDERED_ATTR} must be a list (insertion = database order)', py.where('metamath.converter.converter', init))
     ctx.floor('digit-table', 2)
     ctx.floor('hypothesis-order', 3)
+    ctx.floor('digit-order', 2)
     ctx.explanation = (
         'Two structural clauses of the compressed-proof decoder: the two letter tables are exactly A..T -> 1..20 and U..Y -> 1..5 without '
         'gaps or duplicates and are combined with the weights 20 * 5^i; the mandatory hypotheses are numbered 1, 2, ... by a loop whose '
